@@ -204,6 +204,7 @@ type sqlStmt struct {
 	joinTable string
 	joinAlias string
 	joinOn    sqlExpr
+	joinLeft  bool
 }
 
 type sqlSet struct {
@@ -281,6 +282,12 @@ func sqlParse(src string) *sqlStmt {
 			if !p.isKw("join") {
 				p.fail("inner")
 			}
+		} else if p.kw("left") {
+			p.kw("outer")
+			if !p.isKw("join") {
+				p.fail("left")
+			}
+			st.joinLeft = true
 		}
 		if p.kw("join") {
 			st.joinTable = p.ident()
@@ -1233,6 +1240,7 @@ func (w *Worker) sqlExec(src string, args []sqlVal) ([][]sqlVal, int, Value) {
 			}
 			rows = nil
 			for _, r1 := range t.rows {
+				matched := false
 				for _, r2 := range t2.rows {
 					j := &sqlRow{cells: map[string]sqlVal{}, id: r1.id*100000 + r2.id}
 					for k, v := range r2.cells {
@@ -1245,7 +1253,21 @@ func (w *Worker) sqlExec(src string, args []sqlVal) ([][]sqlVal, int, Value) {
 					}
 					if w.sqlMatch(st.joinOn, &sqlEnv{row: j, args: args}) {
 						rows = append(rows, j)
+						matched = true
 					}
+				}
+				if st.joinLeft && !matched {
+					// left join: the unmatched left row with NULLs for the right table
+					j := &sqlRow{cells: map[string]sqlVal{}, id: r1.id * 100000}
+					for _, cd := range t2.cols {
+						j.cells[cd.name] = sqlVal{null: true}
+						j.cells[a2+"."+cd.name] = sqlVal{null: true}
+					}
+					for k, v := range r1.cells {
+						j.cells[k] = v
+						j.cells[a1+"."+k] = v
+					}
+					rows = append(rows, j)
 				}
 			}
 			for _, c := range st.cols {
@@ -1408,6 +1430,19 @@ func (w *Worker) sqlScanInto(dest Value, v sqlVal) Value {
 		panic(pathAbort{"unsupported", "sql: Scan destination is not a pointer"})
 	}
 	et := deref(iv.T)
+	// database/sql.NullInt64 / NullString / NullBool: {value, Valid}; their
+	// Scan methods go through reflection (convertAssign)
+	switch et.String() {
+	case "database/sql.NullInt64", "database/sql.NullString", "database/sql.NullBool", "database/sql.NullInt32":
+		st := et.Underlying().(*types.Struct)
+		if v.null {
+			w.store(w.kid(p.O, 0), w.zero(st.Field(0).Type()))
+			w.store(w.kid(p.O, 1), w.TF.False)
+			return nil
+		}
+		w.store(w.kid(p.O, 1), w.TF.True)
+		return w.sqlScanInto(IfaceV{T: types.NewPointer(st.Field(0).Type()), V: PtrV{O: w.kid(p.O, 0)}}, v)
+	}
 	// sql.Scanner implementations
 	if m := w.lookupMethodNamed(iv.T, "Scan"); m != nil && m.Signature.Params().Len() == 1 {
 		var arg Value = IfaceV{}
@@ -1434,6 +1469,13 @@ func (w *Worker) sqlScanInto(dest Value, v sqlVal) Value {
 		if _, isIface := et.Underlying().(*types.Interface); isIface {
 			w.store(p.O, IfaceV{})
 			return nil
+		}
+		if sl, isSlice := et.Underlying().(*types.Slice); isSlice {
+			if b, ok := sl.Elem().Underlying().(*types.Basic); ok && b.Kind() == types.Uint8 {
+				// database/sql: NULL into *[]byte yields nil
+				w.store(p.O, w.zero(et))
+				return nil
+			}
 		}
 		return w.sqlPlainErr("sql: Scan error: converting NULL to " + et.String() + " is unsupported")
 	}
